@@ -295,7 +295,8 @@ def rule_pin_position(chk, prog):
                     continue
                 if not prop and (xn == "RIGHT" or yn == "BOTTOM"):
                     continue
-                pin = Obj("Avoid::ShapeConnectionPin", {"m_junction": None, "m_shape": Obj("Avoid::ShapeRef", {}), "m_using_proportional_offsets": prop,
+                from ..microai.interp import default_obj
+                pin = default_obj(prog, "Avoid::ShapeConnectionPin", {"m_junction": None, "m_shape": Obj("Avoid::ShapeRef", {}), "m_using_proportional_offsets": prop,
                                                         "m_x_offset": xo, "m_y_offset": yo, "m_inside_offset": ins})
 
                 def run(o, pin=pin):
@@ -349,7 +350,8 @@ def rule_pin_directions(chk, prog):
     for vis in (CD["ConnDirNone"], CD["ConnDirUp"], CD["ConnDirLeft"] | CD["ConnDirDown"]):
         for xo, xd in ((Fraction(0), CD["ConnDirLeft"]), (Fraction(1), CD["ConnDirRight"]), (Fraction(1, 2), 0), (Fraction(1, 4), 0)):
             for yo, yd in ((Fraction(0), CD["ConnDirUp"]), (Fraction(1), CD["ConnDirDown"]), (Fraction(1, 2), 0)):
-                pin = Obj("Avoid::ShapeConnectionPin", {"m_visibility_directions": vis, "m_x_offset": xo, "m_y_offset": yo})
+                from ..microai.interp import default_obj
+                pin = default_obj(prog, "Avoid::ShapeConnectionPin", {"m_visibility_directions": vis, "m_x_offset": xo, "m_y_offset": yo})
                 it = Interp(prog, type("O", (), {"choose": lambda *a, **k: 0})())
                 try:
                     got = it.call(fn, pin, None, None, arg_values=[])
